@@ -110,7 +110,15 @@ class Impl:
             if cn in ('Push', 'PushXmmRegisterDouble', 'PushXmmRegisterSingle'):
                 r = ins.used_registers[0]
                 if id(r) in idx:
-                    out.append(('pusharg', idx[id(r)]))
+                    if cn == 'PushXmmRegisterSingle':
+                        # a float is pushed as  sub rsp, 4 ; (sub rsp, 4 ; movss [rsp], r): one eightbyte
+                        if out and out[-1] == ('sub', 4):
+                            out.pop()
+                            out.append(('pusharg', idx[id(r)]))
+                        else:
+                            out.append(('unknown', 'push of a 4-byte float slot: ' + txt))
+                    else:
+                        out.append(('pusharg', idx[id(r)]))
                 elif r in acc_family and acc is not None:
                     out.append(('pusharg', acc))
                 elif r.is_colored and not id(r) in idx:
@@ -133,6 +141,9 @@ class Impl:
                 d = ins.defined_registers[0]
                 out.append(('argfromstack', idx[id(d)], int(m.group(3)), d.bitsize))
                 continue
+            if m and len(ins.defined_registers) == 1 and ins.defined_registers[0] in acc_family:
+                acc = ('stack', int(m.group(3)))      # parameter loaded into rax, narrowed below
+                continue
             defs, uses = list(ins.defined_registers), list(ins.used_registers)
             if re.match(r'(mov|movss|movsd|movsx) ', txt) and len(defs) == 1 and len(uses) == 1:
                 d, u = defs[0], uses[0]
@@ -141,7 +152,9 @@ class Impl:
                     acc = src if id(u) in idx or u in acc_family else ('reg', self.regt(u))
                     continue
                 if id(d) in idx:        # callee: parameter vreg receives a value
-                    if u in acc_family and isinstance(acc, tuple):
+                    if u in acc_family and isinstance(acc, tuple) and acc[0] == 'stack':
+                        out.append(('argfromstack', idx[id(d)], acc[1], d.bitsize))
+                    elif u in acc_family and isinstance(acc, tuple):
                         out.append(('argfromreg', idx[id(d)], acc[1]))
                     elif u.is_colored:
                         out.append(('argfromreg', idx[id(d)], self.regt(u)))
@@ -171,6 +184,40 @@ class Impl:
         args = self.vregs(fr, sig)
         ins = list(self.arch.gen_function_enter(args))
         return self.abstract(ins, [a[1] for a in args])
+
+    # -- by-value aggregates: signature elements are type names or ('b', size)
+    def xtypes(self, xs):
+        return [self.ir.BlobDataTyp(x[1], 8 if x[1] % 8 == 0 else (4 if x[1] % 4 == 0 else 1)) if isinstance(x, tuple)
+                else self.ty[x] for x in xs]
+
+    def arg_locations_x(self, xs):
+        return [self.loct(l) for l in self.arch.determine_arg_locations(self.xtypes(xs))]
+
+    def call_rsp_drop_x(self, xs):
+        """bytes rsp has been lowered by when the call instruction of gen_call executes"""
+        fr = self.Frame('caller')
+        args, off = [], 0
+        for x, t in zip(xs, self.xtypes(xs)):
+            if isinstance(x, tuple):
+                off -= x[1]
+                args.append((t, self.StackLocation(off, x[1])))
+            else:
+                args.append((t, fr.new_reg(self.arch.info.value_classes[t])))
+        drop = 0
+        for ins in self.arch.gen_call(fr, 'callee', args, None):
+            cn, txt = type(ins).__name__, str(ins)
+            m = re.fullmatch(r'sub rsp, (-?\d+)', txt)
+            if m:
+                drop += int(m.group(1))
+            elif cn == 'Push':
+                drop += 8
+            elif cn == 'PushXmmRegisterDouble':
+                drop += 8
+            elif cn == 'PushXmmRegisterSingle':
+                drop += 4
+            elif cn in ('Call', 'CallReg'):
+                return drop
+        raise RuntimeError('no call instruction')
 
     def frame(self, stacksize, used_names):
         fr = self.Frame('f')
@@ -304,6 +351,16 @@ def table_text(impl):
     for r in list(a._callee_save) + list(a._caller_save):
         al.append('(%s, [%s])' % (cr(r), '; '.join(cr(x) for x in a.info.alias.get(r, []))))
     L.append('Definition tab_alias : list (reg * list reg) := [%s].' % ';\n  '.join(al))
+    # per-repair switches, probed from the witnesses of the recorded defects on every run
+    sw = {'tab_call_push_fp': isinstance(outcome(impl.gen_call, ['f64'] * 9, None), OkV)
+          and isinstance(outcome(impl.gen_call, ['f32'] * 9, None), OkV),
+          'tab_call_push_small': isinstance(outcome(impl.gen_call, ['i64'] * 6 + ['i8'], None), OkV)
+          and isinstance(outcome(impl.gen_call, ['i64'] * 6 + ['u16'], None), OkV),
+          'tab_enter_small': isinstance(outcome(impl.gen_function_enter, ['i64'] * 6 + ['i8']), OkV)
+          and isinstance(outcome(impl.gen_function_enter, ['i64'] * 6 + ['u16']), OkV)}
+    for k in sorted(sw):
+        L.append('Definition %s : bool := %s.' % (k, 'true' if sw[k] else 'false'))
+    tabs['switches'] = sw
     L.append('Definition tab_rbp : reg := %s.' % cr(impl.R.rbp))
     L.append('Definition tab_rsp : reg := %s.' % cr(impl.R.rsp))
     return '\n'.join(L) + '\n', tabs
@@ -321,7 +378,7 @@ def regen(ctx):
     ctx.cov['stages']['gen_Tab_x86abi'] = {'file': SRC, 'changed_on_disk': changed,
                                            'int_regs': [x.name for x, _ in tabs['int_regs']],
                                            'float_regs': [y.name for _, y in tabs['float_regs']],
-                                           'fp_slot_f32': tabs['fp_slot']('f32')}
+                                           'fp_slot_f32': tabs['fp_slot']('f32'), 'switches': tabs['switches']}
     return impl, tabs
 
 
@@ -559,6 +616,66 @@ def check_tables(impl, ctx):
     return n
 
 
+def sysv_places_x(xs):
+    """psABI placement with class MEMORY aggregates (size > 16): ('m', off) for scalars, ('M', off, size) for aggregates"""
+    ni = nf = stk = 0
+    out = []
+    for x in xs:
+        if isinstance(x, tuple):
+            sz = (x[1] + 7) // 8 * 8
+            out.append(('M', stk, sz))
+            stk += sz
+        elif x in ('f32', 'f64'):
+            if nf < 8:
+                out.append(('x', nf)); nf += 1
+            else:
+                out.append(('m', stk)); stk += 8
+        else:
+            if ni < 6:
+                out.append(('g', HW_NUM[INT_SEQ[ni]])); ni += 1
+            else:
+                out.append(('m', stk)); stk += 8
+    return out
+
+
+def blob_signatures(ctx, thorough):
+    rng = ctx.rng
+    sizes = [17, 20, 24, 32, 40, 48, 100, 24, 32]
+    out = [[('b', 24)], [('b', 20), ('b', 24)], ['i64', ('b', 24), 'f64'], [('b', 32)] + ['i64'] * 7, [('b', 4)], [('b', 8)],
+           [('b', 12), 'i64'], [('b', 16)], ['i64'] * 7 + [('b', 24)], [('b', 40), 'f64', ('b', 24), 'i32']]
+    for _ in range(300 if thorough else 70):
+        n = rng.randrange(1, 9)
+        out.append([('b', rng.choice(sizes)) if rng.random() < 0.4 else rng.choice(['i64', 'i32', 'f64', 'ptr', 'f32']) for _ in range(n)])
+    return out
+
+
+def check_blob_signature(impl, ctx, xs):
+    """aggregates by value: the implementation against the psABI. Aggregates of at most 16 bytes belong in
+    registers (class INTEGER/SSE); larger ones in memory, each rounded up to eightbytes; rsp aligned at the call"""
+    locs = impl.arg_locations_x(xs)
+    small = [x for x, l in zip(xs, locs) if isinstance(x, tuple) and x[1] <= 16 and l[0] == 'stack']
+    show = [list(x) if isinstance(x, tuple) else x for x in xs]
+    if small:
+        ctx.violation({'fn': 'determine_arg_locations', 'args': show, 'key': 'struct-by-value:small-aggregate-on-stack',
+                       'what': 'an aggregate of %d bytes (class INTEGER/SSE, at most two eightbytes) is passed on the stack; '
+                               'the psABI passes it in registers' % small[0][1]})
+    else:
+        want = sysv_places_x(xs)
+        got = [(('M', l[1] - 16, l[2]) if isinstance(x, tuple) else ('m', l[1] - 16)) if l[0] == 'stack' else phys_of(l[1])
+               for x, l in zip(xs, locs)]
+        if [g[:2] for g in got] != [w[:2] for w in want]:
+            odd = any(isinstance(x, tuple) and x[1] % 8 for x in xs)
+            ctx.violation({'fn': 'determine_arg_locations', 'args': show, 'expected': [list(w) for w in want],
+                           'actual': [list(g) for g in got],
+                           'key': 'struct-by-value:size-not-rounded-to-eightbyte' if odd else 'struct-by-value:placement'})
+    drop = outcome(impl.call_rsp_drop_x, xs)
+    if isinstance(drop, OkV) and drop.v % 16 != 0:
+        odd = any(isinstance(x, tuple) and x[1] % 8 for x in xs)
+        ctx.violation({'fn': 'gen_call', 'args': show, 'what': 'rsp not 16-byte aligned at the call', 'actual': drop.v % 16,
+                       'key': 'gen_call:blob-padding' if odd else 'gen_call:alignment'})
+    return 2
+
+
 # ---------------------------------------------------------------- generators
 def signatures(ctx, thorough):
     rng = ctx.rng
@@ -707,6 +824,8 @@ def search(ctx, impl=None, deep=False):
     for (sz, used) in frames(impl, ctx, deep):
         n += check_frame(impl, ctx, sz, list(used))
     n += check_tables(impl, ctx)
+    for xs in blob_signatures(ctx, deep):
+        n += check_blob_signature(impl, ctx, xs)
     for t in TYPES:      # return value register
         n += 1
         got = outcome(lambda: phys_of(impl.regt(impl.arch.determine_rv_location(impl.ty[t]))))
@@ -807,6 +926,16 @@ def run(ctx):
             recs.append(('gen_epilogue', (sz, used)))
             if sz > 0 or any(u.split('/')[0] in ('rbx', 'ebx', 'bx', 'bl', 'bh', 'r14', 'r14d', 'r15', 'r15d') for u in used):
                 nontriv += 1
+        bsigs = blob_signatures(ctx, thorough)
+        for xs in bsigs:
+            cx = '[%s]' % '; '.join('XB %d' % x[1] if isinstance(x, tuple) else 'XT %s' % COQTY[x] for x in xs)
+            cases.append(('determine_arg_locations_x %s' % cx, enc(impl.arg_locations_x(xs))))
+            recs.append(('determine_arg_locations(blobs)', xs))
+            d = outcome(impl.call_rsp_drop_x, xs)
+            if isinstance(d, OkV):
+                cases.append(('call_rsp_drop_x %s' % cx, d.v))
+                recs.append(('gen_call(blobs) rsp drop', xs))
+            nontriv += 1
         ctx.cov['distinct_nontrivial'] += nontriv
         ctx.cov['stages']['correspondence'] = {'signatures': len(sigs), 'frames': len(frs), 'cases': len(cases)}
         for r in recs[:: max(1, len(recs) // 8)]:
@@ -838,7 +967,11 @@ MANIFEST = {
             'frame size and used-register set prologue+body+epilogue return with rsp, rbp and all saved registers restored on an '
             'abstract stack machine; every allocatable register the ABI preserves is covered by callee_save, every other one by the '
             'call clobber list. NOT covered: semantics/encoding of the emitted instructions, struct and variadic arguments, wincc, '
-            'stack-passed float/double and 8/16-bit arguments on the caller side (NotImplementedError, reported), native execution.',
+            'native execution. Also proved: memory arguments of any int/float mixture occupy consecutive eightbytes left to right; '
+            'by-value structs (ir blobs, always copied to the stack at their exact size) equal the psABI exactly for class MEMORY '
+            'aggregates of a size divisible by 8 and are refuted (reported) for aggregates of at most 16 bytes, for sizes not divisible '
+            'by 8, and for the call-site padding with such sizes. Stack-passed float/double and 8/16-bit arguments raise '
+            'NotImplementedError until the two proposed repairs are applied; the model follows through probed switches.',
     'note': 'trusted: Coq kernel; hand model tied to the code only by per-run differential correspondence (~1200 signatures x 3 '
             'functions, ~200 frames x 2) and an AST/introspection table export; psABI/SDM reading in Spec/SysVSpec.v; the '
             'instruction-to-abstract-operation mapping in tools/props/c40.py. No axioms.',
